@@ -117,3 +117,41 @@ def replay(ctx, data):
     ok = sockobs.judge_many(ctx, [rr["obs"]], [m])[0][m]
     print("monitor %s -> %s" % (m, ok))
     return 0 if ok else 1
+
+
+def validate_against_model(ctx, good, label):
+    """Replays every recorded run block by block against Sock.step (driver)."""
+    if not ctx.driver_ok:
+        return
+    lines = []
+    spans = []
+    for fam, script, r in good:
+        vl = sockobs.validation_lines(r)
+        spans.append((len(lines), len(vl), script))
+        lines += vl
+    out = ctx.driver(lines)
+    first_bad = None
+    nsteps = 0
+    for start, n, script in spans:
+        verdict = out[start + n - 1]
+        if verdict.startswith("validated"):
+            ctx.traces_validated += 1
+            try:
+                nsteps += int(verdict.split("steps=")[1].split()[0])
+            except Exception:  # noqa: BLE001
+                pass
+        else:
+            if first_bad is None or len(script) < len(first_bad[0]):
+                first_bad = (script, verdict)
+    ctx.count("model_blocks_validated", nsteps)
+    if first_bad is not None:
+        ctx.tie_broken("correspondence:socket-trace(%s)" % label,
+                       "the Lean socket model cannot follow a recording of the real socket: " + first_bad[1][:600],
+                       script=first_bad[0])
+
+
+def run_sock(ctx, prop_key, plan, monitors, applies=None, gens=(4,), nontrivial=None):
+    for gen in gens:
+        items = gen_scripts(ctx.seed * 7919 + gen, plan)
+        good = judge_family(ctx, prop_key, items, monitors, gen=gen, applies=applies, nontrivial=nontrivial)
+        validate_against_model(ctx, good, "AT%d" % gen)
